@@ -79,6 +79,48 @@ def imtlgWeights (J : Mat α) (d : Vec α) (guard : α) : Option (Vec α) :=
       if absV s ≤ guard * (v.map absV).sum then some (zeros d.length) else some (v.map (· / s))
     else none
 
+/-! ### pseudo-inverse of a symmetric matrix applied to a vector, for ANY rank (kernel: `torch.linalg.pinv`).
+      `x = pinv(G) d` is the minimum-norm least-squares solution of `G x = d`; for symmetric `G` it is characterised by
+      `x ∈ range G` and `G (G x - d) = 0` (the residual is orthogonal to the range).  The search solves `G³ u = G d`
+      (always consistent) and takes `x = G u`; the answer is returned only after the exact certificate check. -/
+
+/-- `A Bᵀ` (rows of `A` against rows of `B`); for a symmetric `B` this is `A B` -/
+def mulT (A B : Mat α) : Mat α := A.map fun r => B.map (dot r)
+
+/-- the certificate: `x = G u` and `G (G x - d) = 0` -/
+def pinvCert (G : Mat α) (d u x : Vec α) : Bool :=
+  decide (x = matVec G u) && decide (matVec G (vsub (matVec G x) d) = zeros d.length)
+
+def pinvApply (G : Mat α) (d : Vec α) : Option (Vec α) :=
+  let m := d.length
+  match solve (mulT (mulT G G) G) (matVec G d) m with
+  | none => none
+  | some u =>
+    let x := matVec G u
+    if pinvCert G d u x then some x else none
+
+/-- IMTL-G for any rank: `v = pinv(J Jᵀ) d`, then as `imtlgWeights` -/
+def imtlgWeightsP (J : Mat α) (d : Vec α) (guard : α) : Option (Vec α) :=
+  match pinvApply (gram J) d with
+  | none => none
+  | some v =>
+    let s := v.sum
+    if absV s ≤ guard * (v.map absV).sum then some (zeros d.length) else some (v.map (· / s))
+
+/-- ConFIG for any rank: `pinv(U) w = Uᵀ pinv(U Uᵀ) w` (an identity of the pseudo-inverse), then as `configVec`;
+    a zero row has the zero unit row (`nan_to_num`) -/
+def configVecP (J : Mat α) (d : Vec α) (w : Vec α) (n : Nat) : Option (Vec α) :=
+  let U : Mat α := List.zipWith (fun row di => if di = 0 then row.map (fun _ => 0) else row.map (· / di)) J d
+  match pinvApply (gram U) w with
+  | none => none
+  | some y =>
+    let best := combine n U y
+    let bb := dot best best
+    if bb = 0 then some (zeros n)
+    else
+      let len := (J.map fun row => dot row best).sum
+      some (smul (len / bb) best)
+
 /-! ### ConFIG: `d` = row norms; unit rows `U`; `best = pinv(U) w`; for independent rows
       `pinv(U) = Uᵀ (U Uᵀ)⁻¹`.  `A(J) = (Σ_i ⟨j_i, û⟩) û` with `û = best/|best|` is rational:
       `(Σ_i ⟨j_i, best⟩ / ⟨best, best⟩) · best`. -/
